@@ -1,5 +1,4 @@
 import CoapVerif.Lemmas.StreamWsSession
-import CoapVerif.Lemmas.StreamWsHs
 /- C05, WebSocket part: a `coap_read_session` call from any state of the invariant (handshake or frame phase),
    the event loop on one chunk, and the whole sequence of chunks = S on the concatenation. -/
 namespace Coap
